@@ -1139,7 +1139,7 @@ theorem cS_ok (lib : Placed p B) (fok : FnsOK p ck B dA fa fns) :
           simp only [hcw, Option.some.injEq, Prod.mk.injEq] at hex
           obtain ⟨rfl, rfl, rfl⟩ := hex
           have hwldF : isDfn fns g = true → HaltW p md ∨
-              (((some rf : Option Res) = none → ∀ m', Keep p.w m m' (F - o) →
+              (((some rf : Option Res) = none → ∀ m', Keep p.w m m' (F - o) → (∀ v, rv = some v → m'.readLE (F - (o + p.w)) p.w = v) →
                   ¬ Halts (sphinx p) ⟨pc + (cCall (cxOf p ck B dA) fa Γ pc o g args).length, m'⟩) ∧
                (some rf = some .defeat → ∀ st', (∃ a v, md = .stop a v ∧ st'.pc = v ∧ SInvD p md Γ env st'.mem F D o ra ∧
                   KeepD p.w m st'.mem (md.kb F p.w)) → ¬ Halts (sphinx p) st')) := by
@@ -1179,7 +1179,7 @@ theorem cS_ok (lib : Placed p B) (fok : FnsOK p ck B dA fa fns) :
                 (hinv.keep k1 ho) hd hwk (by omega) ho hk hck
                 (hs.sub (by simp [noTry]) (by simp [youLevel]) (k1.mono (by omega)) (post_conv (by omega)))
             have hwldN : isDfn fns g = true → HaltW p md ∨
-                (((none : Option Res) = none → ∀ m', Keep p.w m m' (F - o) →
+                (((none : Option Res) = none → ∀ m', Keep p.w m m' (F - o) → (∀ v, rv = some v → m'.readLE (F - (o + p.w)) p.w = v) →
                     ¬ Halts (sphinx p) ⟨pc + (cCall (cxOf p ck B dA) fa Γ pc o g args).length, m'⟩) ∧
                  ((none : Option Res) = some .defeat → ∀ st', (∃ a v, md = .stop a v ∧ st'.pc = v ∧ SInvD p md Γ env st'.mem F D o ra ∧
                     KeepD p.w m st'.mem (md.kb F p.w)) → ¬ Halts (sphinx p) st')) := by
@@ -1187,7 +1187,7 @@ theorem cS_ok (lib : Placed p B) (fok : FnsOK p ck B dA fa fns) :
               rcases hs with ⟨_, _, _, hwld⟩ | ⟨hmd, _⟩
               · rcases hwld with h | ⟨hv, fin⟩
                 · exact Or.inl h
-                · refine Or.inr ⟨fun _ m' k' => ?_, fun h => (by cases h)⟩
+                · refine Or.inr ⟨fun _ m' k' _ => ?_, fun h => (by cases h)⟩
                   obtain ⟨st', r2, hp2⟩ := (hkkOf m' k').2 (fun _ => hv)
                   exact (r2.exec (fin st' (post_conv (by omega) st' (hp2.rebase (k'.mono (by omega)).kb)))).2
               · rw [hNb hd] at hmd; exact absurd hmd.1 (by decide)
@@ -1196,12 +1196,26 @@ theorem cS_ok (lib : Placed p B) (fok : FnsOK p ck B dA fa fns) :
             exact Concl.pre r1 (k1.mono (by omega)) (hkkOf m1 k1) (post_conv (by omega))
     | declCall x g args k =>
       simp only [wfS, Bool.and_eq_true, Bool.not_eq_true'] at hwf
-      obtain ⟨⟨⟨hba, hxn⟩, hwk⟩, hnd⟩ := hwf
-      have hndf : ∀ {P : Prop}, isDfn fns g = true → P := fun h => by rw [hnd] at h; cases h
+      obtain ⟨⟨⟨hba, hxn⟩, hwk⟩, hdv⟩ := hwf
       simp only [pkS] at hpk
       simp only [cS] at hpl hB hs ⊢
       obtain ⟨hpl1, hpl2⟩ := hpl.append
       rw [List.length_append] at hB hs ⊢
+      -- a defeat function is only called in a defeat context, where the situation knows the word `defeat`
+      have hdcT : isDfn fns g = true → dc = true := fun hd => by simpa [hd] using hdv
+      have hnoD : isDfn fns g = true → ¬ ∀ fd ∈ fns, fd.dfn = false := fun hd hall => by
+        unfold isDfn at hd
+        cases hfind : fns.find? (fun fd => fd.name == g) with
+        | none => simp [hfind] at hd
+        | some fd => simp only [hfind] at hd; rw [hall fd (List.mem_of_find?_eq_some hfind)] at hd; cases hd
+      have hdfc : isDfn fns g = true → ∃ v, md = .stop dA v := fun hd => by
+        rcases hs with ⟨_, hvd, _⟩ | ⟨hmd, _⟩
+        · rcases hvd.2 (hdcT hd) with h | h
+          · exact h
+          · exact absurd h (hnoD hd)
+        · rw [hmd.2.1] at hdcT; exact absurd (hdcT hd) (by decide)
+      have hNb : isDfn fns g = true → md.isYou = false := fun hd => by
+        obtain ⟨v, hv⟩ := hdfc hd; rw [hv]; rfl
       simp only [exec] at hex
       cases hcw : callWith (256 ^ p.w) (8 * p.w) fns p.w (exec (256 ^ p.w) (8 * p.w) fns p.w f) D o env g args with
       | none => simp [hcw] at hex
@@ -1211,11 +1225,33 @@ theorem cS_ok (lib : Placed p B) (fok : FnsOK p ck B dA fa fns) :
         | some rf =>
           simp only [hcw, Option.some.injEq, Prod.mk.injEq] at hex
           obtain ⟨rfl, rfl, rfl⟩ := hex
-          have hc := hcall g args trc (some rf) rv hpl1 (by omega) hba (by omega) hcw (fun r h => by cases h; exact hck) hndf hndf
-          rcases callWith_fault hcw with h | h | ⟨h, hd⟩
-          · subst h; obtain ⟨m', r⟩ := hc.1 rfl; exact fault _ _ _ _ m' _ r
-          · subst h; obtain ⟨m', r⟩ := hc.2.1 rfl; exact faultO _ _ _ _ m' _ r
-          · exact hndf hd
+          have hwldF : isDfn fns g = true → HaltW p md ∨
+              (((some rf : Option Res) = none → ∀ m', Keep p.w m m' (F - o) → (∀ v, rv = some v → m'.readLE (F - (o + p.w)) p.w = v) →
+                  ¬ Halts (sphinx p) ⟨pc + (cCall (cxOf p ck B dA) fa Γ pc o g args).length, m'⟩) ∧
+               (some rf = some .defeat → ∀ st', (∃ a v, md = .stop a v ∧ st'.pc = v ∧ SInvD p md Γ env st'.mem F D o ra ∧
+                  KeepD p.w m st'.mem (md.kb F p.w)) → ¬ Halts (sphinx p) st')) := by
+            intro hd
+            rcases hs with ⟨_, _, _, hwld⟩ | ⟨hmd, _⟩
+            · rcases hwld with h | ⟨_, fin⟩
+              · exact Or.inl h
+              · exact Or.inr ⟨fun h => (by cases h), fun h st' hp => by
+                  simp only [Option.some.injEq] at h; subst h; exact fin st' hp⟩
+            · rw [hNb hd] at hmd; exact absurd hmd.1 (by decide)
+          have hc := hcall g args trc (some rf) rv hpl1 (by omega) hba (by omega) hcw (fun r h => by cases h; exact hck) hdfc hwldF
+          rcases callWith_fault hcw with h | h | ⟨h, hd⟩ <;> subst h
+          · obtain ⟨m', r⟩ := hc.1 rfl; exact fault _ _ _ _ m' _ r
+          · obtain ⟨m', r⟩ := hc.2.1 rfl; exact faultO _ _ _ _ m' _ r
+          · obtain ⟨st', r, hp⟩ := hc.2.2.2 rfl
+            refine ⟨fun _ hf => ?_, fun _ => ⟨st', r, hp⟩⟩
+            -- a defeat context that is not the body of a `try/stop`: the handler is a `halt`
+            rcases hs with ⟨_, _, _, hwld⟩ | ⟨hmd, _⟩
+            · rcases hwld with hW | ⟨hv, _⟩
+              · obtain ⟨a, v, e, hpcv, _, _⟩ := hp
+                obtain ⟨pc', m'⟩ := st'
+                simp only at hpcv; subst hpcv
+                exact r.1 (hW a _ e m')
+              · rw [hf] at hv; cases hv
+            · rw [hNb hd] at hmd; exact absurd hmd.1 (by decide)
         | none =>
           cases rv with
           | none => simp [hcw] at hex
@@ -1227,9 +1263,6 @@ theorem cS_ok (lib : Placed p B) (fok : FnsOK p ck B dA fa fns) :
               obtain ⟨envk, trk, resk⟩ := rk
               simp only [hk, Option.bind_eq_bind, Option.bind_some, Option.pure_def, Option.some.injEq, Prod.mk.injEq] at hex
               obtain ⟨rfl, rfl, rfl⟩ := hex
-              obtain ⟨m1, r1, k1, hv1⟩ := (hcall g args trc none (some v) hpl1 (by omega) hba (by omega) hcw
-                (fun r h => by cases h) hndf hndf).2.2.1 rfl
-              obtain ⟨hinv1, hd1⟩ := decl_inv hinv hd x v k1 (hv1 v rfl) hxn ho
               have conv : ∀ (e1 e2 : Nat), e1 = e2 → ∀ st', Post p B ra lp md ((x, o + p.w) :: Γ) envk F D (o + p.w) e1 m resk st' →
                   Post p B ra lp md Γ envk F D o e2 m resk st' := by
                 intro e1 e2 he st' hpost
@@ -1252,14 +1285,29 @@ theorem cS_ok (lib : Placed p B) (fok : FnsOK p ck B dA fa fns) :
                 | cnt =>
                   simp only [Post] at hpost ⊢
                   exact ⟨hpost.1, decl_back hinv x hpost.2.1 hxn, hpost.2.2⟩
-              have hkk := ih F D ra hra lp hlp md sb dc k ((x, o + p.w) :: Γ) (upd env x v) _ (o + p.w) m1 envk trk resk hpl2 (by omega)
-                hinv1 hd1 (by simpa using hwk) (by omega) (by omega) hk hck
-                (hs.sub (by simp [noTry]) (by simp [youLevel]) (k1.mono (by omega)) (conv _ _ (by omega)))
-              exact Concl.pre r1 (k1.mono (by omega)) hkk (conv _ _ (by omega))
+              have hkkOf : ∀ m1, Keep p.w m m1 (F - o) → m1.readLE (F - (o + p.w)) p.w = v → _ := fun m1 k1 hv1 =>
+                ih F D ra hra lp hlp md sb dc k ((x, o + p.w) :: Γ) (upd env x v) _ (o + p.w) m1 envk trk resk hpl2 (by omega)
+                  (decl_inv hinv hd x v k1 hv1 hxn ho).1 (decl_inv hinv hd x v k1 hv1 hxn ho).2 (by simpa using hwk) (by omega) (by omega) hk hck
+                  (hs.sub (by simp [noTry]) (by simp [youLevel]) (k1.mono (by omega)) (conv _ _ (by omega)))
+              have hwldN : isDfn fns g = true → HaltW p md ∨
+                  (((none : Option Res) = none → ∀ m', Keep p.w m m' (F - o) → (∀ v', some v = some v' → m'.readLE (F - (o + p.w)) p.w = v') →
+                      ¬ Halts (sphinx p) ⟨pc + (cCall (cxOf p ck B dA) fa Γ pc o g args).length, m'⟩) ∧
+                   ((none : Option Res) = some .defeat → ∀ st', (∃ a v, md = .stop a v ∧ st'.pc = v ∧ SInvD p md Γ env st'.mem F D o ra ∧
+                      KeepD p.w m st'.mem (md.kb F p.w)) → ¬ Halts (sphinx p) st')) := by
+                intro hd'
+                rcases hs with ⟨_, _, _, hwld⟩ | ⟨hmd, _⟩
+                · rcases hwld with h | ⟨hv, fin⟩
+                  · exact Or.inl h
+                  · refine Or.inr ⟨fun _ m' k' hval => ?_, fun h => (by cases h)⟩
+                    obtain ⟨st', r2, hp2⟩ := (hkkOf m' k' (hval v rfl)).2 (fun _ => hv)
+                    exact (r2.exec (fin st' (conv _ _ (by omega) st' (hp2.rebase (k'.mono (by omega)).kb)))).2
+                · rw [hNb hd'] at hmd; exact absurd hmd.1 (by decide)
+              obtain ⟨m1, r1, k1, hv1⟩ := (hcall g args trc none (some v) hpl1 (by omega) hba (by omega) hcw
+                (fun r h => by cases h) hdfc hwldN).2.2.1 rfl
+              exact Concl.pre r1 (k1.mono (by omega)) (hkkOf m1 k1 (hv1 v rfl)) (conv _ _ (by omega))
     | assignCall x g args k =>
       simp only [wfS, Bool.and_eq_true, Bool.not_eq_true'] at hwf
-      obtain ⟨⟨⟨hxin, hba⟩, hwk⟩, hnd⟩ := hwf
-      have hndf : ∀ {P : Prop}, isDfn fns g = true → P := fun h => by rw [hnd] at h; cases h
+      obtain ⟨⟨⟨hxin, hba⟩, hwk⟩, hdv⟩ := hwf
       simp only [pkS] at hpk
       have hcode : cS (cxOf p ck B dA) fa lp Γ pc o (.assignCall x g args k)
           = ((cCall (cxOf p ck B dA) fa Γ pc o g args ++
@@ -1271,6 +1319,21 @@ theorem cS_ok (lib : Placed p B) (fok : FnsOK p ck B dA fa fns) :
       obtain ⟨hpl12, hpl3⟩ := hpl.append
       obtain ⟨hpl1, hpl2⟩ := hpl12.append
       simp only [List.length_append, List.length_cons, List.length_nil, Nat.zero_add] at hB hpl3 hs ⊢
+      -- a defeat function is only called in a defeat context, where the situation knows the word `defeat`
+      have hdcT : isDfn fns g = true → dc = true := fun hd => by simpa [hd] using hdv
+      have hnoD : isDfn fns g = true → ¬ ∀ fd ∈ fns, fd.dfn = false := fun hd hall => by
+        unfold isDfn at hd
+        cases hfind : fns.find? (fun fd => fd.name == g) with
+        | none => simp [hfind] at hd
+        | some fd => simp only [hfind] at hd; rw [hall fd (List.mem_of_find?_eq_some hfind)] at hd; cases hd
+      have hdfc : isDfn fns g = true → ∃ v, md = .stop dA v := fun hd => by
+        rcases hs with ⟨_, hvd, _⟩ | ⟨hmd, _⟩
+        · rcases hvd.2 (hdcT hd) with h | h
+          · exact h
+          · exact absurd h (hnoD hd)
+        · rw [hmd.2.1] at hdcT; exact absurd (hdcT hd) (by decide)
+      have hNb : isDfn fns g = true → md.isYou = false := fun hd => by
+        obtain ⟨v, hv⟩ := hdfc hd; rw [hv]; rfl
       simp only [exec] at hex
       cases hcw : callWith (256 ^ p.w) (8 * p.w) fns p.w (exec (256 ^ p.w) (8 * p.w) fns p.w f) D o env g args with
       | none => simp [hcw] at hex
@@ -1280,11 +1343,33 @@ theorem cS_ok (lib : Placed p B) (fok : FnsOK p ck B dA fa fns) :
         | some rf =>
           simp only [hcw, Option.some.injEq, Prod.mk.injEq] at hex
           obtain ⟨rfl, rfl, rfl⟩ := hex
-          have hc := hcall g args trc (some rf) rv hpl1 (by omega) hba (by omega) hcw (fun r h => by cases h; exact hck) hndf hndf
-          rcases callWith_fault hcw with h | h | ⟨h, hd⟩
-          · subst h; obtain ⟨m', r⟩ := hc.1 rfl; exact fault _ _ _ _ m' _ r
-          · subst h; obtain ⟨m', r⟩ := hc.2.1 rfl; exact faultO _ _ _ _ m' _ r
-          · exact hndf hd
+          have hwldF : isDfn fns g = true → HaltW p md ∨
+              (((some rf : Option Res) = none → ∀ m', Keep p.w m m' (F - o) → (∀ v, rv = some v → m'.readLE (F - (o + p.w)) p.w = v) →
+                  ¬ Halts (sphinx p) ⟨pc + (cCall (cxOf p ck B dA) fa Γ pc o g args).length, m'⟩) ∧
+               (some rf = some .defeat → ∀ st', (∃ a v, md = .stop a v ∧ st'.pc = v ∧ SInvD p md Γ env st'.mem F D o ra ∧
+                  KeepD p.w m st'.mem (md.kb F p.w)) → ¬ Halts (sphinx p) st')) := by
+            intro hd
+            rcases hs with ⟨_, _, _, hwld⟩ | ⟨hmd, _⟩
+            · rcases hwld with h | ⟨_, fin⟩
+              · exact Or.inl h
+              · exact Or.inr ⟨fun h => (by cases h), fun h st' hp => by
+                  simp only [Option.some.injEq] at h; subst h; exact fin st' hp⟩
+            · rw [hNb hd] at hmd; exact absurd hmd.1 (by decide)
+          have hc := hcall g args trc (some rf) rv hpl1 (by omega) hba (by omega) hcw (fun r h => by cases h; exact hck) hdfc hwldF
+          rcases callWith_fault hcw with h | h | ⟨h, hd⟩ <;> subst h
+          · obtain ⟨m', r⟩ := hc.1 rfl; exact fault _ _ _ _ m' _ r
+          · obtain ⟨m', r⟩ := hc.2.1 rfl; exact faultO _ _ _ _ m' _ r
+          · obtain ⟨st', r, hp⟩ := hc.2.2.2 rfl
+            refine ⟨fun _ hf => ?_, fun _ => ⟨st', r, hp⟩⟩
+            -- a defeat context that is not the body of a `try/stop`: the handler is a `halt`
+            rcases hs with ⟨_, _, _, hwld⟩ | ⟨hmd, _⟩
+            · rcases hwld with hW | ⟨hv, _⟩
+              · obtain ⟨a, v, e, hpcv, _, _⟩ := hp
+                obtain ⟨pc', m'⟩ := st'
+                simp only at hpcv; subst hpcv
+                exact r.1 (hW a _ e m')
+              · rw [hf] at hv; cases hv
+            · rw [hNb hd] at hmd; exact absurd hmd.1 (by decide)
         | none =>
           cases rv with
           | none => simp [hcw] at hex
@@ -1296,35 +1381,58 @@ theorem cS_ok (lib : Placed p B) (fok : FnsOK p ck B dA fa fns) :
               obtain ⟨envk, trk, resk⟩ := rk
               simp only [hk, Option.bind_eq_bind, Option.bind_some, Option.pure_def, Option.some.injEq, Prod.mk.injEq] at hex
               obtain ⟨rfl, rfl, rfl⟩ := hex
-              obtain ⟨m1, r1, k1, hv1⟩ := (hcall g args trc none (some v) hpl1 (by omega) hba (by omega) hcw
-                (fun r h => by cases h) hndf hndf).2.2.1 rfl
-              have hv := hv1 v rfl
               have hoW : o + p.w ≤ D := by unfold pkCall at hpk; omega
-              have hinv1 := hinv.keep k1 ho
-              have c0 := hpl2 0 (by simp); have c1 := hpl2 1 (by simp)
-              simp only [List.getElem_cons_succ, List.getElem_cons_zero, Nat.add_zero] at c0 c1
-              have s0 := step_ldSlot ck B (3 * p.w) (o + p.w) hw hinv1.fr c0 (by omega) hoW (by omega)
-              rw [hv] at s0
-              have k12 : Keep p.w m1 (m1.writeLE (3 * p.w) p.w v) (F - o) :=
-                Keep.write _ _ _ _ _ _ (by omega) (by omega)
-              generalize hm2 : m1.writeLE (3 * p.w) p.w v = m2 at *
-              have hinv2 := hinv1.keep k12 ho
-              have hvM : v < 256 ^ p.w := by rw [← hv]; exact Mem.readLE_lt _ _ _
-              have hr1 : m2.readLE (3 * p.w) p.w = v := by
-                rw [← hm2, Mem.readLE_writeLE_same _ _ _ _ (by have := k1.size; omega)]
-                exact Nat.mod_eq_of_lt hvM
-              obtain ⟨hx1, hx2, _⟩ := hinv.vars x hxin
-              have s1 := step_stSlot ck B (look Γ x) (.st (3 * p.w)) v hw hinv2.fr c1
-                (by rw [ev_st (by unfold Prog.M; omega) (by have := hinv2.fr.top; omega), hr1]) (by omega) (by omega)
-              have hinv3 := assign_inv hw hinv2 hd x v hvM hxin hoD
-              have km3 : Keep p.w m (m2.writeLE (F - look Γ x) p.w v) F :=
-                ((k1.mono (by omega)).trans' (k12.mono (by omega))).trans' (Keep.write _ _ _ _ _ _ (by omega) (by omega))
-              have hkk := ih F D ra hra lp hlp md sb dc k Γ (upd env x v) _ o _ envk trk resk hpl3 (by omega)
-                hinv3 hd hwk (by omega) ho hk hck (hs.sub (by simp [noTry]) (by simp [youLevel]) km3 (post_conv (by omega)))
-              have r01 : Reach (sphinx p) ⟨pc, m⟩ trc
-                  ⟨pc + ((cCall (cxOf p ck B dA) fa Γ pc o g args).length + 2), m2.writeLE (F - look Γ x) p.w v⟩ := by
-                have := r1.trans ((Reach.of_next (sys := sphinx p) s0).trans (Reach.of_next (sys := sphinx p) s1))
+              -- from any state in which the call can return: fetch the result, store it, go on
+              have afterRet : ∀ m1, Keep p.w m m1 (F - o) → m1.readLE (F - (o + p.w)) p.w = v →
+                  ∃ m3, Reach (sphinx p) ⟨pc + (cCall (cxOf p ck B dA) fa Γ pc o g args).length, m1⟩ []
+                      ⟨pc + ((cCall (cxOf p ck B dA) fa Γ pc o g args).length + (1 + 1)), m3⟩ ∧ Keep p.w m m3 F ∧
+                    Concl p B ra lp md Γ envk F D o (pc + ((cCall (cxOf p ck B dA) fa Γ pc o g args).length + (1 + 1)))
+                      (pc + ((cCall (cxOf p ck B dA) fa Γ pc o g args).length + (1 + 1)) +
+                        (cS (cxOf p ck B dA) fa lp Γ (pc + ((cCall (cxOf p ck B dA) fa Γ pc o g args).length + (1 + 1))) o k).length) m3 trk resk := by
+                intro m1 k1 hv
+                have hinv1 := hinv.keep k1 ho
+                have c0 := hpl2 0 (by simp); have c1 := hpl2 1 (by simp)
+                simp only [List.getElem_cons_succ, List.getElem_cons_zero, Nat.add_zero] at c0 c1
+                have s0 := step_ldSlot ck B (3 * p.w) (o + p.w) hw hinv1.fr c0 (by omega) hoW (by omega)
+                rw [hv] at s0
+                have k12 : Keep p.w m1 (m1.writeLE (3 * p.w) p.w v) (F - o) :=
+                  Keep.write _ _ _ _ _ _ (by omega) (by omega)
+                generalize hm2 : m1.writeLE (3 * p.w) p.w v = m2 at *
+                have hinv2 := hinv1.keep k12 ho
+                have hvM : v < 256 ^ p.w := by rw [← hv]; exact Mem.readLE_lt _ _ _
+                have hr1 : m2.readLE (3 * p.w) p.w = v := by
+                  rw [← hm2, Mem.readLE_writeLE_same _ _ _ _ (by have := k1.size; omega)]
+                  exact Nat.mod_eq_of_lt hvM
+                obtain ⟨hx1, hx2, _⟩ := hinv.vars x hxin
+                have s1 := step_stSlot ck B (look Γ x) (.st (3 * p.w)) v hw hinv2.fr c1
+                  (by rw [ev_st (by unfold Prog.M; omega) (by have := hinv2.fr.top; omega), hr1]) (by omega) (by omega)
+                have hinv3 := assign_inv hw hinv2 hd x v hvM hxin hoD
+                have km3 : Keep p.w m (m2.writeLE (F - look Γ x) p.w v) F :=
+                  ((k1.mono (by omega)).trans' (k12.mono (by omega))).trans' (Keep.write _ _ _ _ _ _ (by omega) (by omega))
+                have hkk := ih F D ra hra lp hlp md sb dc k Γ (upd env x v) _ o _ envk trk resk hpl3 (by omega)
+                  hinv3 hd hwk (by omega) ho hk hck (hs.sub (by simp [noTry]) (by simp [youLevel]) km3 (post_conv (by omega)))
+                refine ⟨_, ?_, km3, hkk⟩
+                have := (Reach.of_next (sys := sphinx p) s0).trans (Reach.of_next (sys := sphinx p) s1)
                 simpa [evl, Nat.add_assoc] using this
+              have hwldN : isDfn fns g = true → HaltW p md ∨
+                  (((none : Option Res) = none → ∀ m', Keep p.w m m' (F - o) → (∀ v', some v = some v' → m'.readLE (F - (o + p.w)) p.w = v') →
+                      ¬ Halts (sphinx p) ⟨pc + (cCall (cxOf p ck B dA) fa Γ pc o g args).length, m'⟩) ∧
+                   ((none : Option Res) = some .defeat → ∀ st', (∃ a v, md = .stop a v ∧ st'.pc = v ∧ SInvD p md Γ env st'.mem F D o ra ∧
+                      KeepD p.w m st'.mem (md.kb F p.w)) → ¬ Halts (sphinx p) st')) := by
+                intro hd'
+                rcases hs with ⟨_, _, _, hwld⟩ | ⟨hmd, _⟩
+                · rcases hwld with h | ⟨hv, fin⟩
+                  · exact Or.inl h
+                  · refine Or.inr ⟨fun _ m' k' hval => ?_, fun h => (by cases h)⟩
+                    obtain ⟨m3, r13, km3, hkk⟩ := afterRet m' k' (hval v rfl)
+                    obtain ⟨st', r2, hp2⟩ := hkk.2 (fun _ => hv)
+                    exact ((r13.trans r2).exec (fin st' (post_conv (by omega) st' (hp2.rebase km3.kb)))).2
+                · rw [hNb hd'] at hmd; exact absurd hmd.1 (by decide)
+              obtain ⟨m1, r1, k1, hv1⟩ := (hcall g args trc none (some v) hpl1 (by omega) hba (by omega) hcw
+                (fun r h => by cases h) hdfc hwldN).2.2.1 rfl
+              obtain ⟨m3, r13, km3, hkk⟩ := afterRet m1 k1 (hv1 v rfl)
+              have r01 : Reach (sphinx p) ⟨pc, m⟩ trc ⟨pc + ((cCall (cxOf p ck B dA) fa Γ pc o g args).length + (1 + 1)), m3⟩ := by
+                simpa using r1.trans r13
               exact Concl.pre r01 km3 hkk (post_conv (by omega))
     | brk =>
       simp only [exec, Option.some.injEq, Prod.mk.injEq] at hex
